@@ -370,6 +370,14 @@ def shared_record_grid():
         header = struct.pack(">hhhhiihhhhhh", 0, 0, 0, 0, nfonts, cap, 0, 8, 0, 0, 0, 0) + \
             b"".join(struct.pack(">ihh", disps[i % len(disps)], 0, i & 0x7FFF) for i in range(cap))
         return struct.pack(">ii", len(header), len(area)) + header + area
+    # marker lists whose label offsets lie at / above 0x8000 in a pool of more than 32 768 bytes (a 16-bit offset read with the wrong
+    # signedness makes every label a slice of tens of kilobytes): 10 / 500 / 1 000 markers
+    for nmark in (10, 500, 1000):
+        P = 0x8000 + 64
+        recs = b"".join(struct.pack(">hH", i, 0x8000 + (i % 8)) for i in range(nmark)) + struct.pack(">hH", nmark, 0x8000 + 16)
+        out.append(("vwlb", struct.pack(">h", nmark) + recs + bytes(65 + (i % 26) for i in range(P)), {}, "grid-high-offsets"))
+        recs = b"".join(struct.pack(">hH", i, min(P, 70 * i)) for i in range(nmark + 1))
+        out.append(("vwlb", struct.pack(">h", nmark) + recs + bytes(65 + (i % 26) for i in range(P)), {}, "grid-high-offsets"))
     for alen in (64, 4000, 24000):
         for nch in (-1, -2, -5, -alen + 8, -alen, 0, 1, alen - 4, alen, alen * 2, 2 ** 31 - 1, -2 ** 31):
             area = struct.pack(">i", nch) + bytes(65 + i % 26 for i in range(alen - 4))
